@@ -36,7 +36,7 @@ type c10Expr struct {
 }
 
 type c10Case struct {
-	Kind    string    `json:"kind"` // tok | range | sel | nth | proc
+	Kind    string    `json:"kind"` // tok | range | sel | nth | proc | strip | tmpl | ph
 	Line    string    `json:"line,omitempty"`
 	Delim   c10Delim  `json:"delim"`
 	Exprs   []c10Expr `json:"exprs,omitempty"`
@@ -45,7 +45,10 @@ type c10Case struct {
 	Fuzzy   bool      `json:"fuzzy,omitempty"`
 	Back    bool      `json:"back,omitempty"`  // match backward (--tiebreak=end)
 	Lines   []string  `json:"lines,omitempty"` // proc
-	Mode    string    `json:"mode,omitempty"`  // proc: nth | with-nth | accept-nth
+	Mode    string    `json:"mode,omitempty"`  // proc: nth | with-nth | accept-nth ; tmpl: with-nth | accept-nth
+	Parts   []c10Part `json:"parts,omitempty"` // tmpl / proc: template of --with-nth / --accept-nth (empty: plain list Exprs)
+	Index   int       `json:"index,omitempty"` // tmpl: ordinal of the line ({n})
+	Flags   string    `json:"flags,omitempty"` // ph: placeholder flags ("r", "sr")
 }
 
 func (e c10Expr) String() string {
@@ -400,9 +403,44 @@ func c10Nth(c *Ctx, cs c10Case) {
 		strs = append(strs, string(t.Runes))
 	}
 	lineR := []rune(cs.Line)
+	lead, fields, _ := c10SpecFields(c, cs.Line, d)
+	strs = append(strs, c10Sels(c, cs.Exprs, fields, lead)...)
 	dv := d.Val(strs...)
 	if mv := c.Model.Call(1004, L(Runes(lineR), L(rvals...), dv)); !mv.Equal(c10Toks(ti)) {
 		c10Bad(c, "corr", "corr:C10.transform_input", cs, c10Toks(ti).String(), mv.String())
+	}
+	// spec on transformInput's own output: the searched texts ARE the documented selections (the last one
+	// without ONE trailing delimiter / trailing white space when a --delimiter is given), each at the offset
+	// of its first selected field
+	search := c10SearchTexts(c, d, cs.Exprs, fields, lead)
+	c.Rep.SpecChecks++
+	if len(ti) != len(search) {
+		c10Bad(c, "spec", "nth_searches_selected_fields", cs, c10Toks(ti).String(), fmt.Sprintf("%q", search))
+	} else {
+		for i, ex := range cs.Exprs {
+			if string(ti[i].Runes) != search[i] {
+				c10Bad(c, "spec", "nth_searches_selected_fields", cs, fmt.Sprintf("%s: searched text %q", ex, string(ti[i].Runes)), fmt.Sprintf("%q", search[i]))
+				break
+			}
+			if sp := c.Model.Call(1014, L(ex.Val(), fields, I(len(lead.L)))); len(ti[i].Runes) > 0 && int(sp.L[1].I) != ti[i].PrefixLength {
+				c10Bad(c, "spec", "nth_searches_selected_fields(prefixLength)", cs, fmt.Sprintf("%s: prefixLength %d", ex, ti[i].PrefixLength), sp.L[1].I)
+				break
+			}
+		}
+	}
+	// completeness: a term that occurs in a searched text (exact: as a substring, fuzzy: as a subsequence;
+	// case-sensitive, no normalisation) is found
+	if cs.Query != "" {
+		expect := false
+		for _, s := range search {
+			if cs.Fuzzy && c10Subseq([]rune(cs.Query), []rune(s)) || !cs.Fuzzy && strings.Contains(s, cs.Query) {
+				expect = true
+			}
+		}
+		c.Rep.SpecChecks++
+		if expect && !matched {
+			c10Bad(c, "spec", "nth_complete", cs, "no match", fmt.Sprintf("a match: the query occurs in one of the searched texts %q", search))
+		}
 	}
 	// the matcher's verdict on each token text is an input of the model (algo.* is C02's subject)
 	tbl := []Val{}
@@ -453,7 +491,6 @@ func c10Nth(c *Ctx, cs c10Case) {
 		if !okPos {
 			c10Bad(c, "spec", "nth_positions_refer_to_line", cs, fmt.Sprintf("offset [%d,%d) positions %v", s, e, pos), "characters of the line at these positions spell the query")
 		}
-		lead, fields, _ := c10SpecFields(c, cs.Line, d)
 		inside := false
 		for _, ex := range cs.Exprs {
 			if c.Model.Call(1015, L(ex.Val(), fields, I(len(lead.L)), I(s), I(e))).I == 1 {
@@ -484,6 +521,14 @@ func c10Proc(c *Ctx, cs c10Case) {
 	if err != nil {
 		return
 	}
+	if len(cs.Parts) > 0 && len(cs.Lines) > 0 {
+		targs := []string{}
+		if cs.Delim.K == 3 {
+			targs = append(targs, "--delimiter", cs.Delim.S)
+		}
+		c10ProcTemplate(c, cs, d, targs)
+		return
+	}
 	nth := c10ExprList(cs.Exprs)
 	ranges, err := fzf.VerifSplitNth(nth)
 	if err != nil {
@@ -511,7 +556,8 @@ func c10Proc(c *Ctx, cs c10Case) {
 		for _, t := range pre {
 			joined += string(t.Runes)
 		}
-		mv := c.Model.Call(1007, L(Runes([]rune(line)), L(rvals...), d.Val(line, joined)))
+		ld, fs, _ := c10SpecFields(c, line, d)
+		mv := c.Model.Call(1007, L(Runes([]rune(line)), L(rvals...), d.Val(line, joined, c10FieldsText(c, cs.Exprs, fs, ld))))
 		want := mv.RuneStr() + "\n"
 		if code != 0 || out != want {
 			c10Bad(c, "corr", "corr:C10.process_accept_nth", cs, fmt.Sprintf("exit %d stdout %q stderr %q", code, out, errs), want)
@@ -530,6 +576,12 @@ func c10Proc(c *Ctx, cs c10Case) {
 		if want := strings.TrimRightFunc(sel, unicode.IsSpace); code == 0 && d.kind == 0 && printed != want {
 			c10Bad(c, "spec", "accept_nth_prints_selected_fields", cs, printed, want)
 		}
+		// exactly: the selected text without ONE trailing delimiter, then without trailing white space
+		// ("The last delimiter is stripped from the output")
+		c.Rep.SpecChecks++
+		if exact := c10Out(c, d, sel); code == 0 && printed != exact {
+			c10Bad(c, "spec", "accept_nth_prints_exactly_selected_fields(process)", cs, printed, exact)
+		}
 		c.Rep.Eval(c10Key(cs), printed != "")
 		c.Rep.Count("proc:accept-nth")
 		return
@@ -538,7 +590,7 @@ func c10Proc(c *Ctx, cs c10Case) {
 	default:
 		args = append(args, "--nth", nth)
 	}
-	args = append(args, "--filter", cs.Query, "--exact", "+i", "--no-sort")
+	args = append(args, "--filter", cs.Query, "--exact", "+i", "--no-sort", "--literal")
 	out, errs, code := RunFzf(c, args, []byte(stdin))
 	c.Rep.ImplTraces++
 	got := []string{}
@@ -558,12 +610,18 @@ func c10Proc(c *Ctx, cs c10Case) {
 				}
 			}
 			hit = strings.Contains(joined, cs.Query)
+		} else if b0, e0 := fzf.VerifRangeParts(ranges[0]); len(ranges) == 1 && b0 == 0 && e0 == 0 {
+			// options.go (postProcessOptions): a single --nth expression that is the whole range (.., 1.., ..-1) is
+			// dropped, the whole line is searched as it is (model: nth_match with nth = [])
+			hit = strings.Contains(line, cs.Query)
 		} else {
 			pre := fzf.VerifTokenViews(fzf.Transform(fzf.Tokenize(line, d.d), ranges))
 			strs := []string{line}
 			for _, t := range pre {
 				strs = append(strs, string(t.Runes))
 			}
+			ld, fs, _ := c10SpecFields(c, line, d)
+			strs = append(strs, c10Sels(c, cs.Exprs, fs, ld)...)
 			mv := c.Model.Call(1004, L(Runes([]rune(line)), L(rvals...), d.Val(strs...)))
 			for _, t := range mv.L {
 				if len(t.L) == 2 && strings.Contains(t.L[0].RuneStr(), cs.Query) {
@@ -609,6 +667,16 @@ func c10Proc(c *Ctx, cs c10Case) {
 		if gotSet[line] && !selHit {
 			c10Bad(c, "spec", "nth_confines(process)", cs, "printed: "+line, "query occurs in no selected field")
 		}
+		if cs.Mode != "with-nth" {
+			// what --nth searches: the selections, the last one without its trailing delimiter / white space
+			// (so a query that holds delimiter characters is decided exactly)
+			selHit = false
+			for _, s := range c10SearchTexts(c, d, cs.Exprs, fields, lead) {
+				if strings.Contains(s, cs.Query) {
+					selHit = true
+				}
+			}
+		}
 		if !gotSet[line] && selHit && (code == 0 || code == 1) {
 			c10Bad(c, "spec", "nth_complete(process)", cs, "not printed: "+line, "query occurs in a selected field")
 		}
@@ -637,6 +705,12 @@ func c10Check(c *Ctx, cs c10Case) {
 		c10Nth(c, cs)
 	case "proc":
 		c10Proc(c, cs)
+	case "strip":
+		c10Strip(c, cs)
+	case "tmpl":
+		c10Tmpl(c, cs)
+	case "ph":
+		c10Placeholder(c, cs)
 	}
 	if lim := map[string]int{"proc": 2}[cs.Kind] + 1; c10Sampled[cs.Kind] < min(lim, 2) && len(cs.Exprs) <= 4 {
 		c10Sampled[cs.Kind]++
@@ -652,14 +726,26 @@ var c10Words = []string{"a", "b", "ab", "abc", "xyz", "é", "中文", "😀", "x
 
 func c10GenDelim(r *RNG, proc bool) c10Delim {
 	if proc {
-		switch r.Intn(3) {
+		switch r.Intn(6) {
 		case 0:
 			return c10Delim{K: 0}
 		case 1:
 			return c10Delim{K: 3, S: Pick(r, []string{",", ";", "::", "\\t", " ", "é", "|", ".", "-"})}
-		default:
+		case 2:
 			return c10Delim{K: 3, S: Pick(r, []string{",+", "[,;]", "\\s+", "[0-9]+", ", *", ":|;", "-*", "[é,]"})}
+		case 3:
+			return c10Delim{K: 3, S: Pick(r, c10LitDelims)} // multi-character plain strings
+		default:
+			return c10Delim{K: 3, S: c10GenRegexDelim(r)} // every shape of regular expression, pure literals included
 		}
+	}
+	switch r.Intn(14) {
+	case 10, 11:
+		return c10Delim{K: 2, S: c10GenRegexDelim(r)}
+	case 12:
+		return c10Delim{K: 3, S: c10GenRegexDelim(r)}
+	case 13:
+		return c10Delim{K: 1, S: Pick(r, c10LitDelims)}
 	}
 	switch r.Intn(10) {
 	case 0, 1, 2:
@@ -726,9 +812,15 @@ func c10GenLine(r *RNG, d c10Delim, nfields int) string {
 		for j := 0; j < n; j++ {
 			b.WriteString(Pick(r, c10Words))
 		}
+		if d.K != 0 && r.Chance(1, 4) { // the field ends in characters that also occur in the delimiter
+			b.WriteString(c10DelimPiece(r, seps))
+		}
 	}
 	if r.Chance(1, 3) {
 		b.WriteString(Pick(r, seps))
+		if r.Chance(1, 4) {
+			b.WriteString(Pick(r, seps))
+		}
 	}
 	if r.Chance(1, 8) {
 		b.WriteString(Pick(r, []string{" ", "\t", " ", "  "}))
@@ -844,7 +936,7 @@ func c10GenQuery(r *RNG, line string, d c10Delim) string {
 }
 
 func runC10(c *Ctx) {
-	c.Rep.Rule = "hook level: Tokenize on lines with leading/trailing/consecutive delimiters, multi-byte and invalid UTF-8, three delimiter kinds (regexp locations from Go's engine); ParseRange on well-formed and malformed texts; every expression with bounds -6..6 x field counts 0..6 x three delimiter kinds (exhaustive) and random larger ones through ParseRange+Transform; transformInput + MatchItem with --nth (exact and fuzzy, forward/backward) ; process level: fzf --filter with --nth / --with-nth and --select-1 --accept-nth. non-trivial = >=2 fields (tok), accepted (range), a non-empty selection (sel), a match (nth), some but not all lines printed (proc); distinct by JSON of the case"
+	c.Rep.Rule = "hook level: Tokenize on lines with leading/trailing/consecutive delimiters, multi-byte and invalid UTF-8, three delimiter kinds (regexp locations from Go's engine); ParseRange on well-formed and malformed texts; every expression with bounds -6..6 x field counts 0..6 x three delimiter kinds (exhaustive) and random larger ones through ParseRange+Transform; transformInput + MatchItem with --nth (exact and fuzzy, forward/backward) ; StripLastDelimiter on any text, nthTransformer / acceptNth with plain lists and templates, {rN} / {srN} placeholders (output_text, render_template, placeholder_text evaluated on their outputs); regular-expression delimiters of every shape incl. pure literals, fields ending in delimiter characters; process level: fzf --filter with --nth / --with-nth (plain, template) and --select-1 --accept-nth (plain, template), queries that may hold delimiter characters. non-trivial = >=2 fields (tok), accepted (range), a non-empty selection (sel), a match (nth), some but not all lines printed (proc), something stripped (strip), non-empty output (tmpl, ph); distinct by JSON of the case"
 	if c.Replay != "" {
 		var cs c10Case
 		b, err := os.ReadFile(c.Replay)
@@ -870,12 +962,24 @@ func runC10(c *Ctx) {
 	r := c.Rng
 	// 1. exhaustive small scope: all expressions with bounds -6..6 on 0..6 fields, three delimiter kinds
 	all := c10AllExprs(-6, 6)
-	for _, d := range []c10Delim{{K: 0}, {K: 1, S: ","}, {K: 2, S: ",+"}} {
-		for n := 0; n <= 6; n++ {
+	// (a regular expression that is a pure literal, and a multi-character plain string, on a smaller scope)
+	small := c10AllExprs(-4, 4)
+	for di, d := range []c10Delim{{K: 0}, {K: 1, S: ","}, {K: 2, S: ",+"}, {K: 2, S: "\\|\\|"}, {K: 1, S: "::"}} {
+		all, maxn := all, 6
+		if di >= 3 {
+			all, maxn = small, 4
+		}
+		for n := 0; n <= maxn; n++ {
 			for variant := 0; variant < 3; variant++ {
 				sep := ","
 				if d.K == 0 {
 					sep = " "
+				}
+				if di == 3 {
+					sep = "||"
+				}
+				if di == 4 {
+					sep = "::"
 				}
 				words := []string{}
 				for i := 0; i < n; i++ {
@@ -898,8 +1002,9 @@ func runC10(c *Ctx) {
 			}
 		}
 	}
+	c10OutputSweep(c)
 	c.Rep.Exhaustive = true
-	c.Rep.Extra["exhaustive_scope"] = "expressions N, A.., ..B, A..B, .. with A,B in -6..6 (incl. 0 = invalid) x 0..6 fields x {awk, literal, regexp} x {plain, trailing delimiter, leading/repeated delimiters}"
+	c.Rep.Extra["exhaustive_scope"] = "expressions N, A.., ..B, A..B, .. with A,B in -6..6 (incl. 0 = invalid) x 0..6 fields x {awk, literal, regexp} x {plain, trailing delimiter, leading/repeated delimiters}; the same with A,B in -4..4 x 0..4 fields for a regexp that is a pure literal (\\|\\|) and a two-character literal (::)"
 	// 2. random
 	n := c.N(2500, 60000)
 	for i := 0; i < n; i++ {
@@ -924,8 +1029,27 @@ func runC10(c *Ctx) {
 			c10Check(c, c10Case{Kind: "nth", Line: line, Delim: d, Exprs: es, Query: c10GenQuery(r, line, d), Fuzzy: r.Chance(1, 2), Back: r.Chance(1, 4)})
 		}
 	}
+	// 2b. the output side: StripLastDelimiter, plain lists and templates of --with-nth / --accept-nth, {N} placeholders
+	n = c.N(1500, 40000)
+	for i := 0; i < n; i++ {
+		d := c10GenDelim(r, false)
+		line := c10GenLine(r, d, r.Range(0, 6))
+		switch r.Intn(8) {
+		case 0, 1:
+			c10Check(c, c10Case{Kind: "strip", Str: line, Delim: d})
+		case 2, 3:
+			c10Check(c, c10Case{Kind: "tmpl", Mode: Pick(r, []string{"with-nth", "accept-nth", "accept-nth"}), Line: line, Delim: d,
+				Exprs: c10GenValidExprs(r, 1, 3, Pick(r, []int{2, 3, 4, 6}))})
+		case 4, 5:
+			c10Check(c, c10Case{Kind: "tmpl", Mode: Pick(r, []string{"with-nth", "accept-nth"}), Line: line, Delim: d,
+				Parts: c10GenParts(r), Index: Pick(r, []int{0, 0, 1, 7, 10, 123456})})
+		default:
+			c10Check(c, c10Case{Kind: "ph", Line: line, Delim: d, Exprs: c10GenValidExprs(r, 1, 3, Pick(r, []int{2, 3, 4, 6})),
+				Flags: Pick(r, []string{"r", "r", "sr", "rs"})})
+		}
+	}
 	// 3. the fzf process
-	np := c.N(150, 3000)
+	np := c.N(240, 4500)
 	for i := 0; i < np; i++ {
 		d := c10GenDelim(r, true)
 		es := []c10Expr{}
@@ -951,8 +1075,16 @@ func runC10(c *Ctx) {
 		if r.Chance(3, 4) {
 			q = c10GenProcQuery(r, Pick(r, lines))
 		}
-		mode := Pick(r, []string{"nth", "nth", "with-nth", "accept-nth"})
-		c10Check(c, c10Case{Kind: "proc", Lines: lines, Delim: d, Exprs: es, Query: q, Mode: mode})
+		if r.Chance(1, 2) { // a piece of a line, delimiter characters included
+			q = c10GenProcQuery2(r, lines)
+		}
+		mode := Pick(r, []string{"nth", "nth", "with-nth", "accept-nth", "nth", "accept-nth"})
+		cs := c10Case{Kind: "proc", Lines: lines, Delim: d, Exprs: es, Query: q, Mode: mode}
+		if mode != "nth" && r.Chance(1, 3) { // template form
+			cs.Exprs = nil
+			cs.Parts = c10GenParts(r)
+		}
+		c10Check(c, cs)
 	}
 }
 
